@@ -162,11 +162,18 @@ def run(ctx):
         if not np.allclose(md.compute_distances(t2, pairs, periodic=True), np.linalg.norm(plain, axis=-1), rtol=2e-6, atol=1e-6):
             viol("nocell", "compute_distances(periodic=True) on a trajectory without cell is not the plain Euclidean distance", dict(traj=ti))
         # time-pair variant against the single-frame kernels
-        if ti % 3 == 0 and t.n_frames >= 3:
+        if ti % 2 == 0 and t.n_frames >= 3:        # every cell regime (the regime cycles with ti % 3)
             nfr_ = t.n_frames
             # the diagonal, then a fixed-lag chain (0,1),(1,2),(2,3)..., then random pairs with repeats and reversals
             times = [(0, 0), (1, 1), (2, 2)] + [(f, f + 1) for f in range(nfr_ - 1)] + [(rng.randrange(nfr_), rng.randrange(nfr_)) for _ in range(4)] + [(2, 1), (0, 2)]
             times = np.array(times)
+            # the self pair (2, 2) between two frames is an atom's own displacement (van Hove / MSD analyses): keep atom 2 within a
+            # fraction of the cell width of where it started, up to a lattice vector, so that this displacement is inside the defined range
+            for f in range(1, nfr_):
+                bf = box[f].astype(np.float64)
+                step = np.array([rng.uniform(-1, 1) for _ in range(3)]) * 0.12 * float(width(bf))
+                shift = rng.randrange(-2, 3) * bf[0] + rng.randrange(-2, 3) * bf[1] + rng.randrange(-2, 3) * bf[2]
+                t.xyz[f, 2] = (t.xyz[0, 2].astype(np.float64) + step + shift).astype(np.float32)
             dt = md.compute_distances_t(t, pairs, times, periodic=True, opt=True)
             dr = md.compute_distances_t(t, pairs, times, periodic=True, opt=False)
             ctx.case(None, None); ctx.count("compute_distances_t calls")
